@@ -2,7 +2,8 @@
   C20 — the open-addressing table never loses or duplicates an element: writing into an empty slot adds exactly that
   element to the enumeration (`slots_fill`), clearing a slot removes exactly its element (`slots_clear`), the backward
   shift of `lp_polynomial_hash_set_remove` only moves elements (`shiftBack_perm`); hence a successful insert (without
-  growth) enumerates the old elements plus the new one (`C20_hset_insert_perm`) and a successful remove enumerates the
+  growth: `C20_hset_insert_perm`; with growth, which re-hashes every element into a free slot of the doubled table:
+  `extend_perm`, `C20_hset_insert_perm_any`) enumerates the old elements plus the new one and a successful remove enumerates the
   old elements minus the removed one (`C20_hset_remove_perm`).  What is *not* proved is that every stored element is
   reachable by its probe sequence (the probe-chain invariant): that part of the refinement is tied by the correspondence.
 -/
@@ -180,6 +181,205 @@ theorem C20_hset_remove_missing (s : HSet) (e : Elem) (hrem : (remove s e).2 = f
     cases found with
     | false => rfl
     | true => simp at hrem
+
+theorem probeEmpty_finds (data : Array (Option Elem)) : ∀ (fuel i : Nat), i < data.size →
+    (∃ d, d < fuel ∧ data.getD ((i + d) % data.size) none = none) →
+    ∃ j, probeEmpty data fuel i = some j ∧ j < data.size ∧ data.getD j none = none := by
+  intro fuel
+  induction fuel with
+  | zero => intro i _ ⟨d, hd, _⟩; omega
+  | succ f ih =>
+    intro i hi ⟨d, hd, hn⟩
+    unfold probeEmpty
+    cases hg : data.getD i none with
+    | none => exact ⟨i, rfl, hi, hg⟩
+    | some x =>
+      dsimp only
+      have hd0 : d ≠ 0 := by
+        intro h0
+        subst h0
+        rw [Nat.add_zero, Nat.mod_eq_of_lt hi, hg] at hn
+        exact absurd hn (by simp)
+      refine ih ((i + 1) % data.size) (Nat.mod_lt _ (by omega)) ⟨d - 1, by omega, ?_⟩
+      rw [Nat.mod_add_mod]
+      have : i + 1 + (d - 1) = i + d := by omega
+      rw [this]; exact hn
+
+theorem exists_offset (n i k : Nat) (hi : i < n) (hk : k < n) : ∃ d, d < n ∧ (i + d) % n = k := by
+  by_cases h : i ≤ k
+  · refine ⟨k - i, by omega, ?_⟩
+    have : i + (k - i) = k := by omega
+    rw [this, Nat.mod_eq_of_lt hk]
+  · refine ⟨k + n - i, by omega, ?_⟩
+    have : i + (k + n - i) = k + n := by omega
+    rw [this, Nat.add_mod_right, Nat.mod_eq_of_lt hk]
+
+theorem filterMap_id_length (l : List (Option Elem)) (h : ∀ x ∈ l, x ≠ none) : (l.filterMap id).length = l.length := by
+  induction l with
+  | nil => rfl
+  | cons a l ih =>
+    cases a with
+    | none => exact absurd rfl (h none (by simp))
+    | some e =>
+      have := ih (fun x hx => h x (List.mem_cons_of_mem _ hx))
+      simpa using this
+
+theorem exists_none (data : Array (Option Elem)) (h : (slots data).length < data.size) :
+    ∃ k, k < data.size ∧ data.getD k none = none := by
+  by_contra hc
+  have hall : ∀ x ∈ data.toList, x ≠ none := by
+    intro x hx hxn
+    obtain ⟨k, hk, rfl⟩ := List.getElem_of_mem hx
+    have hk' : k < data.size := by simpa using hk
+    exact hc ⟨k, hk', by rw [getD_toList data k hk']; exact hxn⟩
+  have := filterMap_id_length data.toList hall
+  unfold slots at h
+  rw [this] at h
+  simp at h
+
+/-- one step of the re-hash of `lp_polynomial_hash_set_extend` -/
+def rehashStep (N : Nat) (acc : Array (Option Elem)) (slot : Option Elem) : Array (Option Elem) :=
+  match slot with
+  | none => acc
+  | some e =>
+    match probeEmpty acc N (home N e) with
+    | some i => acc.set! i (some e)
+    | none => acc
+
+theorem extend_data (s : HSet) :
+    (extend s).data = s.data.foldl (rehashStep (s.data.size * 2)) (Array.replicate (s.data.size * 2) none) := by
+  unfold extend
+  dsimp only
+  congr
+
+/-- the re-hash of the growth: every element of the list finds a free slot -/
+theorem extend_fold (N : Nat) : ∀ (l : List (Option Elem)) (acc : Array (Option Elem)) (pre : List Elem),
+    acc.size = N → (slots acc).Perm pre → pre.length + l.length < N →
+    (l.foldl (rehashStep N) acc).size = N ∧ (slots (l.foldl (rehashStep N) acc)).Perm (pre ++ l.filterMap id) := by
+  intro l
+  induction l with
+  | nil => intro acc pre hs hp _; simpa using ⟨hs, hp⟩
+  | cons a l ih =>
+    intro acc pre hs hp hlen
+    simp only [List.length_cons] at hlen
+    cases a with
+    | none =>
+      simp only [List.foldl_cons, List.filterMap_cons, id_eq, rehashStep]
+      exact ih acc pre hs hp (by omega)
+    | some e =>
+      simp only [List.foldl_cons, List.filterMap_cons, id_eq]
+      have hN : 0 < N := by omega
+      have hfree : (slots acc).length < acc.size := by rw [hp.length_eq, hs]; omega
+      obtain ⟨k, hk, hkn⟩ := exists_none acc hfree
+      have hhome : home N e < acc.size := by rw [hs]; exact Nat.mod_lt _ hN
+      obtain ⟨d, hd, hdk⟩ := exists_offset acc.size (home N e) k hhome hk
+      obtain ⟨j, hj, hjs, hjn⟩ := probeEmpty_finds acc acc.size (home N e) hhome ⟨d, hd, by rw [hdk]; exact hkn⟩
+      rw [hs] at hj
+      have hstep : rehashStep N acc (some e) = acc.set! j (some e) := by
+        unfold rehashStep; dsimp only; rw [hj]
+      rw [hstep]
+      have h1 := slots_fill acc j e hjs hjn
+      have := ih (acc.set! j (some e)) (pre ++ [e]) (by simp [hs])
+        (h1.trans ((List.Perm.cons e hp).trans (List.perm_append_singleton e pre).symm)) (by simp; omega)
+      simpa [List.append_assoc] using this
+
+/-- the growth of the table only moves elements -/
+theorem extend_perm (s : HSet) (hs : 0 < s.data.size) : (closeList (extend s)).Perm (closeList s) := by
+  rw [closeList_eq, closeList_eq, extend_data, ← Array.foldl_toList]
+  have := (extend_fold (s.data.size * 2) s.data.toList (Array.replicate (s.data.size * 2) none) []
+    (by simp) (by simp [slots]) (by simp; omega)).2
+  simpa [slots] using this
+
+/-- **a successful insert adds exactly the new element, whether or not the table grows** -/
+theorem C20_hset_insert_perm_any (s : HSet) (e : Elem) (hs : 0 < s.data.size) (hins : (insert s e).2 = true) :
+    (closeList (insert s e).1).Perm (e :: closeList s) := by
+  by_cases hng : ¬ s.size + 1 > s.threshold
+  · exact C20_hset_insert_perm s e hs hins hng
+  · have hg : s.size + 1 > s.threshold := by simpa using hng
+    unfold insert at hins ⊢
+    cases hp : probe s.data e.key s.data.size (home s.data.size e) with
+    | none => rw [hp] at hins; simp at hins
+    | some r =>
+      obtain ⟨i, found⟩ := r
+      rw [hp] at hins
+      cases found with
+      | true => simp at hins
+      | false =>
+        dsimp only
+        rw [if_pos hg]
+        have hi := probe_lt s.data e.key _ _ i false (Nat.mod_lt _ hs) hp
+        have hn := (probe_spec s.data e.key _ _ i false hp).2 rfl
+        refine (extend_perm _ (by simp; exact hs)).trans ?_
+        exact slots_fill s.data i e hi hn
+
+
+theorem extend_size (s : HSet) (hs : 0 < s.data.size) : (extend s).data.size = s.data.size * 2 := by
+  rw [extend_data, ← Array.foldl_toList]
+  exact (extend_fold (s.data.size * 2) s.data.toList (Array.replicate (s.data.size * 2) none) []
+    (by simp) (by simp [slots]) (by simp; omega)).1
+
+theorem shiftBack_size : ∀ (fuel : Nat) (data : Array (Option Elem)) (hole j0 : Nat),
+    (shiftBack data fuel hole j0).size = data.size := by
+  intro fuel
+  induction fuel with
+  | zero => intro data hole j0; rfl
+  | succ f ih =>
+    intro data hole j0
+    unfold shiftBack
+    dsimp only
+    cases data.getD ((j0 + 1) % data.size) none with
+    | none => rfl
+    | some e =>
+      dsimp only
+      split
+      · rw [ih]; simp
+      · rw [ih]
+
+/-- the operations of a history of the table -/
+inductive SOp | insert (e : Elem) | remove (e : Elem)
+
+def applySOp (s : HSet) : SOp → HSet
+  | .insert e => (insert s e).1
+  | .remove e => (remove s e).1
+
+/-- the slot array is never empty, after every history (so the hypotheses of the theorems above hold in every reachable state) -/
+theorem C20_hset_reachable_size (ops : List SOp) : 0 < (ops.foldl applySOp HSet.empty).data.size := by
+  suffices H : ∀ (ops : List SOp) (s : HSet), 0 < s.data.size → 0 < (ops.foldl applySOp s).data.size from
+    H ops _ (by simp [HSet.empty, defaultSize])
+  intro ops
+  induction ops with
+  | nil => intro s hs; exact hs
+  | cons op ops ih =>
+    intro s hs
+    refine ih _ ?_
+    cases op with
+    | insert e =>
+      show 0 < (insert s e).1.data.size
+      unfold insert
+      cases hp : probe s.data e.key s.data.size (home s.data.size e) with
+      | none => exact hs
+      | some r =>
+        obtain ⟨i, found⟩ := r
+        cases found with
+        | true => exact hs
+        | false =>
+          dsimp only
+          split
+          · rw [extend_size _ (by simp; exact hs)]; simp; exact hs
+          · simp; exact hs
+    | remove e =>
+      show 0 < (remove s e).1.data.size
+      unfold remove
+      cases hp : probe s.data e.key s.data.size (home s.data.size e) with
+      | none => exact hs
+      | some r =>
+        obtain ⟨i, found⟩ := r
+        cases found with
+        | false => exact hs
+        | true =>
+          dsimp only
+          unfold removeAt
+          rw [shiftBack_size]; simp; exact hs
 
 end HSet
 end LP
